@@ -193,9 +193,10 @@ class Func:
     __slots__ = ("m", "q", "name", "cls", "file", "line", "endline", "virtual", "const",
                  "static", "ctor", "dtor", "overrides", "params", "body", "inits", "cfg_raw",
                  "types", "inst", "lambda_in", "is_lambda", "tu", "ret", "_nodes", "_parent",
-                 "_cfg", "internal")
+                 "_cfg", "internal", "_const_locals_cache")
 
     def __init__(self, d, types, tu):
+        self._const_locals_cache = None
         self.m = d["m"]
         self.q = d["q"]
         self.name = d["name"]
